@@ -216,6 +216,43 @@ fn x_h14wire__mp4a_esds_every_type_freq_channels() {
     std::mem::forget(v);
 }
 
+/// Wire leg in the encode direction: the mp4a/esds sample entry built from the configuration carries
+/// object type, frequency index and channel configuration in the AudioSpecificConfig bits defined
+/// by 14496-3 (5 + 4 + 4 bits), and the bitrate in the DecoderConfigDescriptor -- for every
+/// configuration whose object type fits the 5-bit field (1..=30).
+#[kani::proof]
+#[kani::unwind(7)]
+fn q_h14wire__mp4a_esds_encoded_parameters() {
+    let (aac, p, f, c) = any_aac();
+    kani::assume(p <= 30);
+    let bitrate = aac.bitrate;
+    let v = Mp4aBox::new(&aac);
+    let mut buf = [0u8; 96];
+    let n = {
+        let mut w = Cursor::new(&mut buf[..]);
+        match v.write_box(&mut w) {
+            Ok(n) => n,
+            Err(e) => {
+                std::mem::forget(e);
+                assert!(false, "C14 the sample entry of an accepted configuration encodes");
+                return;
+            }
+        }
+    };
+    assert!(n == 75, "C14 mp4a + esds layout");
+    // mp4a: 8 header + 28 fields; esds: 8 + 4; ES_Descriptor 2+3; DecoderConfig 2+13; DecoderSpecific 2 -> ASC
+    let asc = 36 + 12 + 5 + 15 + 2;
+    let bits = ((buf[asc] as u16) << 8) | buf[asc + 1] as u16;
+    assert!((bits >> 11) as u8 == p, "C14 AAC object type on the wire");
+    assert!(((bits >> 7) & 0xF) as u8 == f, "C14 sampling-frequency index on the wire");
+    assert!(((bits >> 3) & 0xF) as u8 == c, "C14 channel configuration on the wire");
+    let avg = 36 + 12 + 5 + 2 + 9;
+    assert!(be32(&buf, avg) == bitrate, "C14 bitrate on the wire");
+    kani::cover!(f >= 8, "(opt) a frequency index with the top bit set");
+    kani::cover!(true, "encoded");
+    std::mem::forget(v);
+}
+
 #[kani::proof]
 #[kani::unwind(6)]
 fn q_h14trk__ttxt() {
